@@ -39,6 +39,14 @@ type GoBackNConn struct {
 	recvDataChan chan *PacketData
 	sendDataChan chan *PacketData
 
+	// recvBuf holds the chunks of a partially received message. It is kept
+	// across Recv calls so that a Recv call that times out in the middle of
+	// a multi-chunk message does not discard the chunks it already took off
+	// the recvDataChan.
+	// recvBuf must be guarded by recvBufMu.
+	recvBuf   []byte
+	recvBufMu sync.Mutex
+
 	log btclog.Logger
 
 	// receivedACKSignal channel is used to signal that the queue size has
@@ -209,10 +217,7 @@ func (g *GoBackNConn) Recv() ([]byte, error) {
 	default:
 	}
 
-	var (
-		b   []byte
-		msg *PacketData
-	)
+	var msg *PacketData
 
 	ticker := time.NewTimer(g.timeoutManager.GetRecvTimeout())
 	defer ticker.Stop()
@@ -226,14 +231,18 @@ func (g *GoBackNConn) Recv() ([]byte, error) {
 		case msg = <-g.recvDataChan:
 		}
 
-		b = append(b, msg.Payload...)
+		g.recvBufMu.Lock()
+		g.recvBuf = append(g.recvBuf, msg.Payload...)
 
 		if msg.FinalChunk {
-			break
-		}
-	}
+			b := g.recvBuf
+			g.recvBuf = nil
+			g.recvBufMu.Unlock()
 
-	return b, nil
+			return b, nil
+		}
+		g.recvBufMu.Unlock()
+	}
 }
 
 // start kicks off the various goroutines needed by GoBackNConn.
